@@ -184,9 +184,13 @@ def step (flog : Nat → Nat) (s : Plan) : Plan :=
 /-- `_gvcf_merge_task_limit` -/
 def mergeTaskLimit : Nat := 150000
 
-/-- the public `gvcf_batch_size` setter: `if value * len(intervals) > limit: value = limit // len(intervals)`
+/-- the public `gvcf_batch_size` setter: `if value * len(intervals) > limit: value = max(1, limit // len(intervals))`
 (`nIv` = `len(self._gvcf_import_intervals)`; the constructor does *not* go through it, it writes `_gvcf_batch_size`) -/
 def clampBatch (nIv value : Nat) : Nat :=
+  if value * nIv > mergeTaskLimit then max 1 (mergeTaskLimit / nIv) else value
+
+/-- the setter before the repair 79521ff4e (`value = limit // len(intervals)`, no lower bound), kept to document the defect -/
+def clampBatchOld (nIv value : Nat) : Nat :=
   if value * nIv > mergeTaskLimit then mergeTaskLimit / nIv else value
 
 /-- `combiner.gvcf_batch_size = value` -/
@@ -268,6 +272,36 @@ def Iv.covers (i : Iv) (c p : Nat) : Bool :=
   i.startContig == c && i.endContig == c &&
     (if i.includesStart then decide (i.startPos ≤ p) else decide (i.startPos < p)) &&
     (if i.includesEnd then decide (p ≤ i.endPos) else decide (p < i.endPos))
+
+/-! ### `run()` with failures inside steps
+
+`run()` is `while not self.finished: self.save(); self.step()` followed by a last `save()`.  A step removes its inputs
+from the in-memory plan before the merged dataset is written and registered, so an exception (or Ctrl-C) inside
+`step()` leaves a half-updated plan **in memory only**: the plan on disk is the one saved just before the step.  The
+user restarts with `load(save_path)` and calls `run()` again. -/
+
+/-- how one iteration of the loop ends -/
+inductive Outcome where
+  | done      -- `step()` returned
+  | fault     -- an engine call inside `step()` raised; the process is restarted from the saved plan
+deriving DecidableEq, Repr
+
+/-- the in-memory plan and the plan stored at `save_path` -/
+structure RunSt where
+  mem : Plan
+  saved : Plan
+
+/-- one iteration: `self.save()` then `self.step()`; on a fault the in-memory state is lost and the restarted process
+holds `load(save_path)` -/
+def iter (flog : Nat → Nat) (o : Outcome) (r : RunSt) : RunSt :=
+  match o with
+  | .done => { mem := step flog r.mem, saved := r.mem }
+  | .fault => { mem := reload flog r.mem, saved := r.mem }
+
+/-- a whole history of iterations (over any number of restarts) -/
+def runFaulty (flog : Nat → Nat) : List Outcome → RunSt → RunSt
+  | [], r => r
+  | o :: os, r => runFaulty flog os (iter flog o r)
 
 /-! ### executable floor-log for the driver (no theorem depends on it) -/
 
